@@ -43,14 +43,13 @@ impl From<UndefV> for Value {
         Value::UNDEFINED
     }
 }
-/// a small string of 0..=2 ASCII bytes
+/// a small string of exactly 2 symbolic ASCII bytes
 struct Str2([u8; 2], usize);
 impl Sym for Str2 {
     fn sym() -> Self {
         let b: [u8; 2] = kani::any();
-        let n: usize = kani::any();
-        kani::assume(n <= 2 && b[0] < 0x80 && b[1] < 0x80);
-        Str2(b, n)
+        kani::assume(b[0] < 0x80 && b[1] < 0x80);
+        Str2(b, 2)
     }
 }
 impl From<Str2> for Value {
@@ -113,6 +112,25 @@ fn check_pair(a: &Value, b: &Value, with_hash: bool) {
     }
 }
 
+/// Order laws only (no call into PartialEq): used in the quick tier for pairs of different kinds, whose
+/// equality goes through a failing numeric conversion that CBMC needs > 400 s for (measured).
+macro_rules! order_harness {
+    ($name:ident, $ta:ty, $tb:ty, $want:expr) => {
+        #[kani::proof]
+        #[kani::unwind(5)]
+        #[kani::stub(alloc::fmt::format, crate::verif_common::format_stub)]
+        fn $name() {
+            let (a, b) = (Value::from(<$ta as Sym>::sym()), Value::from(<$tb as Sym>::sym()));
+            let ab = a.cmp(&b);
+            assert!(ab == b.cmp(&a).reverse());
+            // values of different kinds are never Equal in the order; kinds order as documented
+            assert!(ab == $want);
+            kani::cover!(true);
+            core::mem::forget((a, b));
+        }
+    };
+}
+
 macro_rules! pair_harness {
     ($name:ident, $ta:ty, $tb:ty, $hash:expr) => {
         #[kani::proof]
@@ -137,17 +155,25 @@ pair_harness!(c07_pair_i64_f64, i64, f64, false);
 pair_harness!(c07_pair_f64_f64, f64, f64, false);
 pair_harness!(c07_pair_i64_i128, i64, i128, false);
 pair_harness!(c07_pair_u128_u128, u128, u128, false);
-pair_harness!(c07_pair_u64_u128, u64, u128, false);
-pair_harness!(c07_pair_none_bool, NoneV, bool, true);
-pair_harness!(c07_pair_undef_none, UndefV, NoneV, true);
+pair_harness!(c07_pair_u64_u128, u64, u128, false); // tier=thorough cap=3000
+pair_harness!(c07_pair_none_bool, NoneV, bool, true); // tier=thorough cap=3000
+pair_harness!(c07_pair_undef_none, UndefV, NoneV, true); // tier=thorough cap=3000
 pair_harness!(c07_pair_bool_bool, bool, bool, true);
-pair_harness!(c07_pair_none_i64, NoneV, i64, true);
+pair_harness!(c07_pair_none_i64, NoneV, i64, true); // tier=thorough cap=3000
 pair_harness!(c07_pair_str_str, Str2, Str2, true);
-pair_harness!(c07_pair_str_i64, Str2, i64, true);
+pair_harness!(c07_pair_str_i64, Str2, i64, true); // tier=thorough cap=3000
 pair_harness!(c07_pair_i128_u128, i128, u128, false); // tier=thorough cap=3000
 pair_harness!(c07_pair_i128_f64, i128, f64, false); // tier=thorough cap=3000
 pair_harness!(c07_pair_u128_f64, u128, f64, false); // tier=thorough cap=3000
 pair_harness!(c07_pair_i128_i128, i128, i128, false); // tier=thorough cap=1200
+// @verif-end
+
+// @verif-block props=C07 tier=quick cap=300 group=core doc=kind-first_order_for_a_pair_of_DIFFERENT_kinds_(payloads_symbolic):_cmp_is_antisymmetric_and_never_Equal;_undefined_<_none_<_bool_<_number_<_string
+order_harness!(c07_order_undef_none, UndefV, NoneV, Ordering::Less);
+order_harness!(c07_order_none_bool, NoneV, bool, Ordering::Less);
+order_harness!(c07_order_none_i64, NoneV, i64, Ordering::Less);
+order_harness!(c07_order_i64_str, i64, Str2, Ordering::Less);
+order_harness!(c07_order_bool_str, bool, Str2, Ordering::Less);
 // @verif-end
 
 /// Known finding KF-C07-bool-number: a bool and a number compare equal through coercion
